@@ -11,6 +11,9 @@ CSID_PARSED = r"call\(deserializer::get_csid\) as Value\.val"
 OWN_CSID = r"load\(\*?load\(self\)\.current_header\.chunk_stream_id\)"
 
 
+from ..framework import wants
+
+
 def run(env, rep):
     prog, ctx = env.prog, env.ctx
     rep.explanation = (
@@ -19,7 +22,7 @@ def run(env, rep):
         "chunk stream id; (b) what is loaded into the working payload field when a chunk starts is the map entry removed under the "
         "chunk stream id parsed from this chunk's basic header, or a fresh empty buffer; R2: the working header comes from / goes "
         "back to previous_headers under the same discipline, and a delivered message's timestamp, type id and message stream id "
-        "are copied from the working header on every delivering path.  Not decided: correct reassembly under every interleaving "
+        "are copied from the working header on every delivering path.  R3: the chunk stream id parsed from the three basic-header forms is the specification's (C06 R2), so different chunk streams never share a key.  Not decided: correct reassembly under every interleaving "
         "(follows from R1 + R2 + C06 by an argument over chunk sequences, stated not mechanised).")
     m = chunk.ChunkModel(env, rep, "C16.anchors")
     if not m.ok:
@@ -104,3 +107,8 @@ def run(env, rep):
                 why.append("%s is %s" % (fld, st[-1][2][:60] if st else "not set on a delivering path"))
     rep.check("C16.R2", "delivered-fields-from-working-header", deliver_ok and n_d >= 1, "a delivered message takes timestamp, type id and message stream id from the working header (%d delivering paths)" % n_d,
               "a message can be delivered with header fields that were not copied from the header of the chunk that completes it: %s" % sorted(set(why)), pay.span)
+    # ------------------------------------------------------------------ R3: distinct chunk streams get distinct keys
+    from ..framework import PrefixReport
+    from . import C06
+    if wants(rep, "C16.R3"):
+        C06.run(env, PrefixReport(rep, "C06.", "C16.R3.", only=("C06.R2",)))
